@@ -56,7 +56,8 @@ PROPS = {
                  {'name': 'inrange', 'harness': ['inrange'], 'driver': ['inrange']}],
         'rule': 'store histories as C04/C05 with adversarial ids (tiny distance in one byte order, huge in the other); in-range triples: '
                 'random, window of +-2 around the distance, around every power of two, radii below 600 and the maximum; non-trivial = '
-                'non-empty store / every triple; distinct = distinct lines',
+                'non-empty store / every triple; distinct = distinct lines'
+                ' Two stores in one process: B holds 5 small items, A is filled until it prunes; B is unchanged, still accepts, and a store opened afterwards starts at the maximum radius.',
         'trusted': ['uint256 arithmetic modelled by Nat'],
         'assumptions': ['32-byte content ids'],
         'explanation': 'theorems about the ideal (big-endian) model over all histories; the real store is compared exactly with the '
@@ -80,7 +81,8 @@ PROPS = {
         'min_obligations': 4,
         'runs': [{'name': 'table', 'harness': ['table'], 'driver': ['table', 'C07']},
                  {'name': 'tableconc', 'harness': ['tableconc'], 'driver': ['table', 'C07']}],
-        'rule': 'operation sequences (add found/inbound/forced-live, delete, revalidation timer, revalidation answers delivered in any order (dead / alive / alive with a new record), lookup feedback incl. runs of consecutive failures) against the real portalwire.Table with a fake transport and a simulated clock; node ids from pools of 34/90 keys so that buckets fill and ids repeat; addresses from three public /24s (one crowded in every fourth sequence), LAN, loopback and missing; sequence numbers 1..3; after every operation the full snapshot (entries with record/credit/verified flag/list, replacement order, per-bucket and table-wide /24 counters, fast/slow lists, active requests) must equal the model; non-trivial = the table held at least 8 entries; distinct = distinct operation lines among those',
+        'rule': 'operation sequences (add found/inbound/forced-live, delete, revalidation timer, revalidation answers delivered in any order (dead / alive / alive with a new record), lookup feedback incl. runs of consecutive failures) against the real portalwire.Table with a fake transport and a simulated clock; node ids from pools of 34/90 keys so that buckets fill and ids repeat; addresses from three public /24s (one crowded in every fourth sequence), LAN, loopback and missing; sequence numbers 1..3; after every operation the full snapshot (entries with record/credit/verified flag/list, replacement order, per-bucket and table-wide /24 counters, fast/slow lists, active requests) must equal the model; non-trivial = the table held at least 8 entries; distinct = distinct operation lines among those'
+                ' A quarter of the records of known ids keep the address of the previous record and move only the port or only the sequence number.',
         'trusted': ['enode.LogDist, netutil.DistinctNetSet/AddrIsLAN (re-modelled; compared on every snapshot)', 'operations are applied serially through the same handlers the table loop calls'],
         'assumptions': ['a revalidation answer carries a record of the node that was asked (the transport filters distance 0)'],
         'explanation': 'Tb.inv_reachable2: invariant by induction over all operation lists; snapshots of the real table equal the model after every operation; '
@@ -90,7 +92,8 @@ PROPS = {
         'lean_targets': ['Shisui.Props.C18', 'Shisui.Inst.C07'],
         'min_obligations': 6,
         'runs': [{'name': 'table', 'harness': ['table'], 'driver': ['table', 'C18']}],
-        'rule': 'operation sequences (add found/inbound/forced-live, delete, revalidation timer, revalidation answers delivered in any order (dead / alive / alive with a new record), lookup feedback incl. runs of consecutive failures) against the real portalwire.Table with a fake transport and a simulated clock; node ids from pools of 34/90 keys so that buckets fill and ids repeat; addresses from three public /24s (one crowded in every fourth sequence), LAN, loopback and missing; sequence numbers 1..3; after every operation the full snapshot (entries with record/credit/verified flag/list, replacement order, per-bucket and table-wide /24 counters, fast/slow lists, active requests) must equal the model; non-trivial = the table held at least 8 entries; distinct = distinct operation lines among those',
+        'rule': 'operation sequences (add found/inbound/forced-live, delete, revalidation timer, revalidation answers delivered in any order (dead / alive / alive with a new record), lookup feedback incl. runs of consecutive failures) against the real portalwire.Table with a fake transport and a simulated clock; node ids from pools of 34/90 keys so that buckets fill and ids repeat; addresses from three public /24s (one crowded in every fourth sequence), LAN, loopback and missing; sequence numbers 1..3; after every operation the full snapshot (entries with record/credit/verified flag/list, replacement order, per-bucket and table-wide /24 counters, fast/slow lists, active requests) must equal the model; non-trivial = the table held at least 8 entries; distinct = distinct operation lines among those'
+                ' A quarter of the records of known ids keep the address of the previous record and move only the port or only the sequence number.',
         'trusted': ['as C07'],
         'assumptions': ['as C07'],
         'explanation': 'per-step policy theorems (entry_leaves_only_if over all five operation kinds, successor, full_bucket_newcomer, record_change, credit_rule); '
@@ -156,7 +159,8 @@ PROPS = {
                 'unsupported version; the decoded ACCEPT (verdict list + connection id present) must equal the model; end to end: offers of 1..6 '
                 'items (sizes 0..3000, some keys already stored at the receiver) between two real instances for three version pairings, the '
                 'element arriving on the receiver\'s validation queue is compared; handleOfferedContents on streams with other item counts and '
-                'truncated streams; non-trivial = at least one key / one accepted item; distinct = distinct lines',
+                'truncated streams; non-trivial = at least one key / one accepted item; distinct = distinct lines'
+                ' Life cycle of the in-flight mark: 40 (thorough 600) histories of 3-5 version-1 offers over a pool of 4 fresh in-range keys, each offer either from a peer that never connects (keys stay in flight) or from a real instance whose transfer ends at once (it dials the announced connection id and sends one item too many); every verdict is compared with the Ofl model.',
         'trusted': ['utp-go stream; go-bitfield and fastssz codecs of ACCEPT (C14); semaphore for slots'],
         'assumptions': ['overlapping offers are exercised back to back (second offer right behind the first reply), not truly in parallel'],
         'explanation': 'theorems verdict_count, accepted_only_if, connid_iff, pairing (+ codec round trips), count_mismatch_dropped; step equality of the '
@@ -188,7 +192,8 @@ PROPS = {
                 'undecodable, wrong count all declined, wrong count with an accepting verdict, short count accepting, all declined, truncated) for both '
                 'ACCEPT encodings; offer() to a silent peer (RPC timeout); gossip with a free and with a full offer queue; 8 real gossip-initiated '
                 'transfers through 3 slots between two real instances; after each, the number of slots obtainable once activity has ceased must equal '
-                'the limit; non-trivial = sequences of more than 3 operations / every scripted outcome; distinct = distinct lines',
+                'the limit; non-trivial = sequences of more than 3 operations / every scripted outcome; distinct = distinct lines'
+                ' Inbound: two accepted offers (v0 and v1) hold two of three slots while the node waits; all slots are back after the 15 s connect timeout of peers that never connect, after Stop() while waiting, and after an offer that arrives after Stop().',
         'trusted': ['golang.org/x/sync/semaphore as a counter; utp-go'],
         'assumptions': ['RPC-initiated offers use NoPermit by design and are outside the bound', 'dial/read failures after an accepted offer wait for 15 s timeouts and are exercised in the thorough tier only'],
         'explanation': 'theorems held_le_limit, conservation, quiescent_full over all interleavings; step equality for the controller; "slot returned" monitors per outcome on the real code',
